@@ -97,20 +97,28 @@ Definition nat_to_string (n : nat) : string := nat_to_string_aux (S n) n "".
 
 Definition prop_of (kind : string) : string := substring 0 3 kind.
 
+(* every complaint of this step, the first one per property that has not complained before *)
+Fixpoint note_kinds (i : nat) (kinds : list string) (seen : list string) (acc : list (nat * string))
+    : list string * list (nat * string) :=
+  match kinds with
+  | [] => (seen, acc)
+  | k :: tl =>
+    match k with
+    | EmptyString => note_kinds i tl seen acc
+    | _ => if existsb (String.eqb (prop_of k)) seen then note_kinds i tl seen acc
+           else note_kinds i tl (prop_of k :: seen) (acc ++ [(i, k)])
+    end
+  end.
+
 Fixpoint viol_collect (i : nat) (cfg : config) (t0 : Z) (m : mon) (pre : dump) (seen : list string)
     (acc : list (nat * string)) (evs : list (event * list (nat * wref)))
     (obss : list (list obs)) (dumps : list ddelta) : list (nat * string) :=
   match evs, obss, dumps with
   | e :: evs', o :: obss', dl :: dumps' =>
     let d := apply_delta pre dl in
-    let '(m', kind) := p_step cfg t0 m pre (fst e) o d in
-    match kind with
-    | EmptyString => viol_collect (S i) cfg t0 m' d seen acc evs' obss' dumps'
-    | _ =>
-      if existsb (String.eqb (prop_of kind)) seen
-      then viol_collect (S i) cfg t0 m' d seen acc evs' obss' dumps'
-      else viol_collect (S i) cfg t0 m' d (prop_of kind :: seen) (acc ++ [(i, kind)]) evs' obss' dumps'
-    end
+    let '(m', kinds) := p_step_all cfg t0 m pre (fst e) o d in
+    let '(seen', acc') := note_kinds i kinds seen acc in
+    viol_collect (S i) cfg t0 m' d seen' acc' evs' obss' dumps'
   | _, _, _ => acc
   end.
 
@@ -125,6 +133,11 @@ Definition viol_from (i : nat) (cfg : config) (t0 : Z) (m : mon) (pre : dump) (e
 
 Definition empty_dump : dump := mkDump 0 [] [] [] 0 [].
 
+(* An assignment that differs from the policy is a C04 violation and a disagreement with the model at once. *)
 Definition check_case (c : case) : verdict :=
-  vcombine (viol_from 0 (c_cfg c) (c_t0 c) mon0 empty_dump (c_events c) (c_obs c) (c_dumps c))
-           (mism_from 0 (init (c_cfg c) (c_t0 c)) empty_dump VOk (c_events c) (c_obs c) (c_dumps c)).
+  let v := viol_from 0 (c_cfg c) (c_t0 c) mon0 empty_dump (c_events c) (c_obs c) (c_dumps c) in
+  let mm := mism_from 0 (init (c_cfg c) (c_t0 c)) empty_dump VOk (c_events c) (c_obs c) (c_dumps c) in
+  match mm with
+  | VViolation i _ => vcombine (vcombine v mm) (VMismatch i "assignment")
+  | _ => vcombine v mm
+  end.
